@@ -9,6 +9,15 @@ CLAIMED = {
         "note": "Trusted: gymnasium step/reset tuple order; value-transparency of int/float/asarray wrappers; vector envs auto-reset. Does not decide "
                 "what the buffer does afterwards (C02) nor aliasing of a mutable observation object reused by an environment.",
     },
+    "C11": {
+        "technique": "static analysis: product exploration of the statement CFG with bounded counter differences (path counting), truth-table path pruning over (terminated, truncated), control-dependence of learning calls, symbolic (polynomial) step-conservation in the schedulers",
+        "level": "Decides on every CFG path (break, zero-trip, loop-exit; all three episode-end rows): reported counter == start + executed steps for the 9 "
+                 "counter-returning routines; strict budget guards; episode-limit exit at exactly the requested number of finished episodes; no step after an "
+                 "ended episode without reset in all 19 single-env loops; every learning call gated by counter >= learning_starts; selector protocol, D-UCB "
+                 "choice form and symbolic conservation of per-task step totals in SMT / active-MT.",
+        "note": "Trusted: gymnasium step protocol; RecordEpisodeStatistics queues; integer semantics of range/while. Not decided: D-UCB arg-max numerics, the "
+                "per-batch budget granularity of the on-policy collectors (documented design), what single-task routines passed as `train_st` do.",
+    },
 }
 
 NOT_APPLICABLE = {}
